@@ -186,3 +186,37 @@ Theorem move_gain_directed : forall LC LD KoC KiC KoD KiD kout kin wuC wuD s m g
   - (contrib LC KoC KiC + contrib (LD + wuD + s) (KoD + kout) (KiD + kin))
   == (gain wuC KiC KoC - gain wuD KiD KoD) / m.
 Proof. intros. unfold contrib, gain. field. assumption. Qed.
+
+(* sorted edge traversal of generate_graph: canonical for edge lists with distinct end-point pairs
+   (the working graphs are single-edge), whatever the iteration order of the edge HashMap *)
+Lemma edge_ltb_trans : forall a b c : ledge, edge_ltb a b = true -> edge_ltb b c = true -> edge_ltb a c = true.
+Proof.
+  intros a b c. unfold edge_ltb.
+  rewrite !orb_true_iff, !andb_true_iff, !Nat.ltb_lt, !Nat.eqb_eq. lia.
+Qed.
+
+Lemma edge_ltb_asym : forall a b : ledge, edge_ltb a b = true -> edge_ltb b a = false.
+Proof.
+  intros a b. unfold edge_ltb. intro H. apply not_true_iff_false. revert H.
+  rewrite !orb_true_iff, !andb_true_iff, !Nat.ltb_lt, !Nat.eqb_eq. lia.
+Qed.
+
+Lemma edge_ltb_total : forall a b : ledge, (eu a, ev a) <> (eu b, ev b) ->
+  edge_ltb a b = true \/ edge_ltb b a = true.
+Proof.
+  intros a b H. unfold edge_ltb.
+  rewrite !orb_true_iff, !andb_true_iff, !Nat.ltb_lt, !Nat.eqb_eq.
+  assert (eu a <> eu b \/ ev a <> ev b).
+  { destruct (Nat.eq_dec (eu a) (eu b)) as [E1|E1]; [|left; exact E1].
+    destruct (Nat.eq_dec (ev a) (ev b)) as [E2|E2]; [|right; exact E2].
+    exfalso. apply H. rewrite E1, E2. reflexivity. }
+  lia.
+Qed.
+
+Theorem sort_edges_perm : forall l1 l2 : list ledge,
+  Permutation l1 l2 -> NoDup (map (fun e => (eu e, ev e)) l1) ->
+  sort_by edge_ltb l1 = sort_by edge_ltb l2.
+Proof.
+  intros l1 l2 HP Hnd.
+  apply (sort_by_perm edge_ltb (fun e => (eu e, ev e)) edge_ltb_trans edge_ltb_asym edge_ltb_total); assumption.
+Qed.
